@@ -273,7 +273,7 @@ def _gen_section(
         if r.chance(1, 8):
             lines[-1] += "  # " + r.choice(DOC_FRAGMENTS)
     for _ in range(nconst):
-        cn = r.choice(CONST_NAMES)
+        cn = r.choice(CONST_NAMES if p.weird_names else CONST_NAMES[:8])  # (NULL and EOF are macros in C and C++)
         if cn.lower() in used_names:
             continue
         used_names.add(cn.lower())
